@@ -1236,6 +1236,84 @@ func checkC16(w *World, r *Report) {
 		}
 	}
 	r.check(okSite && inLoop, "C16.eof-site", readList, "EOF error site", tmplCall.Pos(), "raised in the element loop when peek returns no token", "the EOF error is not raised at the nil-peek branch of the element loop")
+	// ... and nothing else is said where the tokens may have run out: an error made up inside the element loop
+	// (not the error of a nested read handed on) other than the EOF error stands where a token is known to follow
+	r.rule("C16.eof-only", "inside the element loop of read_list every error the loop makes up itself, other than the EOF error, is returned where a peek has just shown that a token follows (the non-nil branch of a test of peek's result, with no read in between): where the tokens may have run out inside an open bracket the only verdict is 'expected closer, got EOF'")
+	{
+		loopFn := tmplCall.Parent()
+		nOwn := 0
+		for _, l := range naturalLoops(loopFn) {
+			if !l.header.Dominates(tmplCall.Block()) {
+				continue
+			}
+			lb := loopBlocks(l)
+			for _, rb := range loopFn.Blocks {
+				if lb[rb] || rb.Idom() == nil || !lb[rb.Idom()] || rb == tmplCall.Block() || len(rb.Instrs) == 0 {
+					continue
+				}
+				ret, ok := rb.Instrs[len(rb.Instrs)-1].(*ssa.Return)
+				if !ok || len(ret.Results) != 2 || isNilConst(ret.Results[1]) {
+					continue
+				}
+				made := false
+				switch x := ret.Results[1].(type) {
+				case *ssa.MakeInterface:
+					made = true
+				case *ssa.Call:
+					sc := x.Call.StaticCallee()
+					made = sc != nil && !isReaderFn(sc) && x.Block() == rb
+				}
+				if !made {
+					continue
+				}
+				nOwn++
+				follows := false
+				for _, tb := range loopFn.Blocks {
+					iff := blockIf(tb)
+					if iff == nil || !lb[tb] {
+						continue
+					}
+					bo, ok := iff.Cond.(*ssa.BinOp)
+					if !ok || (bo.Op != token.EQL && bo.Op != token.NEQ) || !isNilConst(bo.Y) {
+						continue
+					}
+					pc, ok := bo.X.(*ssa.Call)
+					if !ok || !w.isTokenPeek(pc.Call.StaticCallee()) {
+						continue
+					}
+					idx := 0
+					if bo.Op == token.EQL {
+						idx = 1
+					}
+					if !edgeDominates(tb, idx, rb) {
+						continue
+					}
+					// nothing is read between the peek and the verdict
+					clean := true
+					for d := rb; d != nil && clean; d = d.Idom() {
+						for _, in := range d.Instrs {
+							if c, ok := in.(*ssa.Call); ok {
+								if d == pc.Block() && c.Pos() <= pc.Pos() {
+									continue
+								}
+								if sc := c.Call.StaticCallee(); sc != nil && (isReaderFn(sc) || w.isTokenNext(sc)) {
+									clean = false
+								}
+							}
+						}
+						if d == pc.Block() {
+							break
+						}
+					}
+					if clean {
+						follows = true
+					}
+				}
+				r.check(follows, "C16.eof-only", loopFn, "error made up in the element loop", ret.Pos(), "returned where a token is known to follow", "inside the element loop an error other than 'expected closer, got EOF' is returned where the tokens may have run out (no test of peek's result since the last read shows that a token follows): a text cut at that place is called malformed where it is incomplete, and the REPL discards an entry it has to read on for")
+			}
+		}
+		r.add("C16.eof-only", loopFn, "errors made up in the element loop besides the EOF error", token.NoPos, "ok", fmt.Sprintf("%d examined", nOwn))
+	}
 	replJoinRule(w, r, "C16.join")
 	r.Assumptions = append(r.Assumptions, "brackets inside strings and comments are handled by the trusted scanner (single tokens / skipped); 'a complete expression is never reported as incomplete' is decided only through the EOF site rule")
 }
@@ -1572,6 +1650,11 @@ func checkC15(w *World, r *Report) {
 	textVerdictRule(w, r, "C15.text-verdict")
 	printEntryRule(w, r, "C15.print-entry")
 	preambleValueVerbatimRule(w, r, "C15.value-verbatim")
+	// keyword values (and keys) travel as printed text: the printer's form of a keyword is the one text the reader
+	// turns back into that keyword, whatever characters the name holds
+	r.include("C15.keyword-", "C06.", "a keyword is printed as the keyword character followed by its name with exactly the leading marker stripped", checkC06, func(rule string) bool {
+		return rule == "C06.brackets" || rule == "C06.marker"
+	})
 	// a text with a preamble means what it says, whatever was read before it and beside it
 	noGlobalWritesRule(w, r, "C15.read-stateless", "reading a text with its preamble", append([]*ssa.Function{w.Fn("", "READ"), w.Fn("", "READWithPreamble"), w.Fn("", "AddPreamble")}, w.pkgFuncs("reader")...))
 	keyContentRule(w, r, "C15.key-content")
